@@ -58,7 +58,15 @@ GI = M + '.TemplateDict.__getitem__'
 HAS = M + '.TemplateDict.__contains__'
 
 contract(M + '.TemplateDict.__contains__', params=dict(self=TD(), key=Opaque()), raises_any=False, returns=Bool())
-contract(USTR, variant='str', params=dict(v=Opaque()), raises_any=True, returns=Str())
+def _ustr_hook(E, loc):
+    """ustr(v) is v itself for a str (proved for the real ustr in C19: clause str_returned_as_is)"""
+    v = loc['v']
+    if E.is_strlike(v):
+        return v
+    return None
+
+
+contract(USTR, variant='str', params=dict(v=Opaque()), raises_any=True, returns=Str(), call_hook=_ustr_hook)
 
 
 def _render_state(args, nmods=0, fmt='s', str_mods=True):
@@ -262,3 +270,63 @@ for _n, _lib in (('url_quote', 'quote'), ('url_quote_plus', 'quote_plus'), ('url
              exit_hook=_mod_exit(lambda v, _lib=_lib: z3.Function('urllib.' + _lib, z3.StringSort(), z3.StringSort())(v),
                                  '%s(v) is urllib.parse.%s(str(v))' % (_n, _lib)))
     MODS.append(DV + '.' + _n + '#C15')
+
+
+# ------------------------------------------------------------------ C03: the full dtml-var path quotes like the simple form
+from pyvc.library import html_escape_term  # noqa
+
+
+def _full_state(args, use_modifier):
+    def hook(E, env):
+        _render_state(args, 0)(E, env)
+        if use_modifier:
+            me = E.heap[env.locals['self'].addr]
+            me.fields['modifiers'] = VT([E.lookup_qual('DocumentTemplate.html_quote.html_quote')])
+    return hook
+
+
+def _full_exit(E, outcome, value, env, prefix):
+    ob = _ob(E, prefix, 'C03')
+    if outcome != 'normal' or (isinstance(value, VC) and value.v in ('NULL', 'MISSING')):
+        return
+    ev = _events(E)
+    us = [e[1] for i, e in enumerate(ev) if e[0] == 'ret' and i > 0 and ev[i - 1][0] == 'ustr']
+    tainted = any(t[0] == 'call' and t[1].endswith('.quoted') for t in E.trace)
+    if tainted:
+        return          # tainted values: C04
+    if any(t[0] == 'call' for t in E.trace):
+        return          # the value has a method named like the format: method formats take precedence (documented order)
+    if not us or not E.is_strlike(value):
+        ob('full_path_output_is_exactly_the_escaped_value', False, 'the full dtml-var path did not produce text from the string form of the value')
+        return
+    ob('full_path_output_is_exactly_the_escaped_value', E.as_z3_str(value) == html_escape_term(E.as_z3_str(us[0])),
+       'with html_quote among other options (or fmt=html-quote) the output is html.escape(string form of the value): the same text '
+       'as the simple form')
+
+
+FULL = []
+for _tag, _args, _um in (('modifier', {'': 'x', 'null': 'NULL'}, True), ('modifier.missing', {'': 'x', 'missing': 'MISSING'}, True),
+                         ('fmt', {'': 'x', 'fmt': 'html-quote'}, False)):
+    contract(VAR + '.render', variant='C03.' + _tag, params=dict(self=NoneV(), md=TD()),
+             pre_hook=_full_state(_args, _um), exit_hook=_full_exit, uses=[GI, HAS, USTR + '#str'])
+    FULL.append(VAR + '.render#C03.' + _tag)
+
+
+def _simple_exit(want):
+    def hook(E, outcome, value, env, prefix):
+        ob = _ob(E, prefix, 'C03')
+        me = E.heap[env.locals['self'].addr]
+        sf = me.fields.get('simple_form')
+        got = tuple(x.v if isinstance(x, VC) else '?' for x in sf.items) if isinstance(sf, VT) else None
+        ob('simple_form', bool(outcome == 'normal' and got == want),
+           'the tag compiles to the simple form %r (got %r)' % (want, got))
+    return hook
+
+
+SIMPLE = []
+for _i, (_a, _w) in enumerate((('x html_quote', ('v', 'x', 'h')), ('x', ('v', 'x')), ('name=x html_quote', ('v', 'x', 'h')),
+                               ('x html_quote null=""', None), ('x upper', None))):
+    contract(VAR + '.__init__', variant='C03.simple%d' % _i,
+             params=dict(self=Obj(VAR, lazy=False, prov='fresh'), args=Const(_a), fmt=Const('s'), encoding=NoneV()),
+             exit_hook=_simple_exit(_w))
+    SIMPLE.append(VAR + '.__init__#C03.simple%d' % _i)
